@@ -650,6 +650,7 @@ pub fn preprocess_str<T: AsRef<Path>, U: AsRef<Path>, V: BuildHasher>(
                             path.as_ref(),
                             &defines,
                             include_paths,
+                            ignore_include,
                             strip_comments,
                             resolve_depth + 1,
                         )? {
@@ -709,6 +710,7 @@ pub fn preprocess_str<T: AsRef<Path>, U: AsRef<Path>, V: BuildHasher>(
                     path.as_ref(),
                     &defines,
                     include_paths,
+                    ignore_include,
                     strip_comments,
                     resolve_depth + 1,
                 )? {
@@ -909,6 +911,7 @@ fn resolve_text_macro_usage<T: AsRef<Path>, U: AsRef<Path>>(
     path: T,
     defines: &Defines,
     include_paths: &[U],
+    ignore_include: bool,
     strip_comments: bool,
     resolve_depth: usize,
 ) -> Result<Option<(String, Option<(PathBuf, Range)>, Defines)>, Error> {
@@ -1003,7 +1006,7 @@ fn resolve_text_macro_usage<T: AsRef<Path>, U: AsRef<Path>>(
                 path.as_ref(),
                 &defines,
                 include_paths,
-                false,
+                ignore_include,
                 strip_comments,
                 resolve_depth,
                 0, // include_depth
